@@ -1189,6 +1189,8 @@ class Interp:
         top = self.reg.contracts.get(self.current_target) if self.current_target else None
         if c is not None and top is not None and key in top.inline_callees:
             c = None
+        if c is not None and c.call_inline:
+            c = None
         plain_target = self.current_target.split("#")[0] if self.current_target else None
         if key is not None and key == plain_target and not getattr(self, "_entered_target", False):
             # first entry into the function under verification (possibly through its decorators): its body is
